@@ -13,7 +13,7 @@ from fractions import Fraction
 from .. import arr as A
 from ..report import Finding
 from .common import *
-from .convspec import conv_definition
+from .convspec import conv_definition, option_box
 
 
 def worker(job):
@@ -106,6 +106,12 @@ def run(ctx):
     pm.func(GI_MOD, "GeometricImage.convolve_with")
     jobs = []
     th = ctx.thorough()
+    # the option box shared by C01 / C04 / C06 / C11, on one representative configuration per entry point
+    for D in (2, 3) if th else (2,):
+        Nb = (4, 5) if D == 2 else (3, 4, 3)
+        for padding, stride, rd, ld, flags in option_box(D, Nb):
+            jobs.append((ctx.repo, "convolve", D, Nb, (3,) * D, 1, 0, 1, 2, 1, flags, stride, padding, ld, rd))
+            jobs.append((ctx.repo, "convolve_contract", D, Nb, (3,) * D, 1, 1, 1, 1, 2, flags, stride, padding, ld, rd))
     for D in (2, 3):
         N = (4, 5) if D == 2 else (3, 4, 3)
         flag_sets = list(itertools.product((True, False), repeat=D)) if (th or D == 2) else [(True, False, True), (False, False, False)]
